@@ -244,9 +244,29 @@ def recover(s, i):
         raise Violation("c14:session:not-running-after-recovery", "transceiver %d does not run after POWEROFF/tune/POWERON" % i)
 
 
+def _typed_bursts():
+    """valid traffic is not one fixed bit pattern: normal, sync and access bursts with every training sequence
+    (assembled from the reference tables), plus all-zero (frequency correction) and an alternating pattern"""
+    import random as _r
+    from refs import trx_model as tm
+    rnd = _r.Random(7)
+    bit = lambda k: [rnd.randint(0, 1) for _ in range(k)]
+    out = [bytes((i * 7) & 1 for i in range(148)), bytes(148)]
+    for t in range(8):
+        out.append(bytes([0] * 3 + bit(58) + list(tm.bits_of(tm.NB_TSC[t])) + bit(58) + [0] * 3))
+        out.append(bytes([0] * 8 + list(tm.bits_of(tm.AB_TSC[t])) + bit(36) + [0] * 63))
+    for t in range(4):
+        out.append(bytes([0] * 3 + bit(39) + list(tm.bits_of(tm.SB_TSC[t])) + bit(39) + [0] * 3))
+    assert all(len(b) == 148 for b in out)
+    return out
+
+
+TYPED = _typed_bursts()
+
+
 def session_oracle(case):
     s = Session(CFG, {"reply", "routing", "metadata"}, "c14")
-    bits = bytes((i * 7) & 1 for i in range(148))
+    bits = TYPED[case["rseed"] % len(TYPED)]
     cl = set()
     try:
         for i in (0, 1):
@@ -256,6 +276,7 @@ def session_oracle(case):
             i = st_["t"]
             app_t = s.app.trx[i]
             if st_["op"] == "burst":
+                bits = TYPED[(case["rseed"] + st_["fn"] + st_["tn"]) % len(TYPED)]
                 s.arrive(i, {"ver": s.model.trx[i].ver, "fn": st_["fn"], "tn": st_["tn"], "pwr": st_["pwr"], "bits": bits})
                 try:
                     s.tick(st_["fn"])
@@ -345,10 +366,15 @@ def session_oracle(case):
         recover(s, 0)
         recover(s, 1)
         s.stats["delivered"] = 0
-        for snd in (0, 1):
-            s.arrive(snd, {"ver": s.model.trx[snd].ver, "fn": 777 + snd, "tn": 2, "pwr": 3, "bits": bits})
-            s.tick(777 + snd)
-        if s.stats["delivered"] < 2:
+        for ver_ in (0, 1):
+            # final traffic on both header versions, a different burst type each time
+            for snd in (0, 1):
+                s.cmd(snd, "SETFORMAT", [str(ver_)])
+            for snd in (0, 1):
+                b_ = TYPED[(case["rseed"] + 5 * ver_ + snd) % len(TYPED)]
+                s.arrive(snd, {"ver": ver_, "fn": 777 + snd + 10 * ver_, "tn": 2, "pwr": 3, "bits": b_})
+                s.tick(777 + snd + 10 * ver_)
+        if s.stats["delivered"] < 4:
             raise HarnessError("final traffic was not delivered in the model: recovery script incomplete")
         return (sorted(cl) or ["valid-only"], bool(cl & {"bad-ctrl-answered", "odd-but-parseable-data-queued"}),
                 {"steps": [{k: (v if not isinstance(v, bytes) else repr(v[:60])) for k, v in x.items()} for x in case["steps"]]})
